@@ -1,4 +1,5 @@
 import SamVerif.Lemmas.Scope
+import SamVerif.Lemmas.ScopeRename
 /-!
 # C15 — Navigation and rename agree with the language's scoping rules
 
@@ -9,11 +10,9 @@ protocol) plus the renamer.  `apply_renaming` (`variable_definition.rs:362`) rew
 exactly the identifier nodes whose location is the definition or one of its uses; on the event
 view of a module that is `renameAt`.
 
-Pending (stated, not proved): `rename_preserves_resolution` without the side condition of
-`rename_preserves_resolution_partial` (the renamed name may also be bound by *other*, sibling
-bindings); it is covered by the model-free `rn` oracle on every occurrence of generated programs.
--- theorem rename_preserves_resolution : new ∉ names evs → S = {d} ∪ uses d →
---     graph (run (renameAt S new evs) init) = graph (run evs init)
+History: C15-F1 (`this` was renamable) and C15-F2 (or-patterns nested in a later alternative
+were invisible to the analysis) were repaired by the fix commits 69a554a / a157fc5; the model is
+the fixed code.
 -/
 namespace SamVerif.Scope
 
@@ -127,25 +126,7 @@ theorem use_resolved_or_reported (st : St α) (n : α) (loc : Nat) (ft : Bool) :
   · next k l _ => left; exact ⟨l, by simp [insertKV, lookupKV], rfl⟩
   · right; exact ⟨rfl, rfl⟩
 
-/-! ### the renamer -/
-
-def Ev.loc : Ev α → Option Nat
-  | .define _ l => some l
-  | .use _ l _ => some l
-  | _ => none
-
-def Ev.name? : Ev α → Option α
-  | .define n _ => some n
-  | .use n _ _ => some n
-  | _ => none
-
-/-- `apply_renaming` on the event view: identifier nodes whose location is in `S` (the definition
-and its uses) get the new name, nothing else changes. -/
-def renameAt (S : List Nat) (new : α) : List (Ev α) → List (Ev α)
-  | [] => []
-  | .define n l :: evs => .define (if l ∈ S then new else n) l :: renameAt S new evs
-  | .use n l ft :: evs => .use (if l ∈ S then new else n) l ft :: renameAt S new evs
-  | ev :: evs => ev :: renameAt S new evs
+/-! ### the renamer (`renameEv`, `renameAt`, `Node.renameAt`: Lemmas/ScopeRename.lean) -/
 
 /-- **`rename_involutive`**: renaming the occurrences `S` (all of which carry the name `old`) to any
 name and back restores the original, for every event sequence. -/
@@ -156,21 +137,57 @@ theorem rename_involutive (S : List Nat) (old new : α) (evs : List (Ev α))
   | nil => rfl
   | cons ev evs ih =>
     have ih' := ih (fun e he => h e (List.mem_cons_of_mem _ he))
+    simp only [renameAt, List.map_cons, List.map_map] at ih' ⊢
+    rw [ih']
+    congr 1
     cases ev with
-    | push => simp [renameAt, ih']
-    | pop k l => simp [renameAt, ih']
+    | push => rfl
+    | pop k l => rfl
     | define n l =>
       have := h (.define n l) (by simp) l rfl
       by_cases hl : l ∈ S
       · have hn : n = old := by simpa [Ev.name?] using this hl
-        simp [renameAt, hl, hn, ih']
-      · simp [renameAt, hl, ih']
+        simp [renameEv, hl, hn]
+      · simp [renameEv, hl]
     | use n l ft =>
       have := h (.use n l ft) (by simp) l rfl
       by_cases hl : l ∈ S
       · have hn : n = old := by simpa [Ev.name?] using this hl
-        simp [renameAt, hl, hn, ih']
-      · simp [renameAt, hl, ih']
+        simp [renameEv, hl, hn]
+      · simp [renameEv, hl]
+
+/-- **The tree renamer is the event renamer**: visiting the module rewritten by `apply_renaming`
+(every identifier node at a location of `S` renamed — variables, pattern binders including
+struct-shorthand binders, lambda parameters) yields the renamed events.  So the event-level
+theorems below speak about the rewritten syntax tree, for every binding form and nesting. -/
+theorem rename_tree_commutes (S : List Nat) (new : α) (n : Node α) :
+    visit (Node.renameAt S new n) = renameAt S new (visit n) :=
+  visit_renameAt S new n
+
+/-- **`rename_preserves_resolution`** (general; no "bound once" condition): let the module be
+accepted by scope analysis, `new` fresh, and `S` = the binding `d` plus exactly the occurrences
+that resolve to it (`Admissible`, a decidable predicate evaluated along the original run; other
+bindings may carry the same old name).  Then the renamed module has the same use→definition map,
+the same definition set and reference lists, no new diagnostics, and the same per-scope binding
+tables up to the new name — no capture, no escape. -/
+theorem rename_preserves_resolution (S : List Nat) (d : Nat) (old new : α) (evs : List (Ev α))
+    (h : Admissible S d old new evs init) :
+    (run (renameAt S new evs) init).useDef = (run evs (init : St α)).useDef ∧
+    (run (renameAt S new evs) init).invalid = (run evs (init : St α)).invalid ∧
+    defToUse (run (renameAt S new evs) init) = defToUse (run evs (init : St α)) ∧
+    (run (renameAt S new evs) init).errors = (run evs (init : St α)).errors ∧
+    (run (renameAt S new evs) init).unbound = (run evs (init : St α)).unbound ∧
+    (run (renameAt S new evs) init).scopedDefs =
+      (run evs (init : St α)).scopedDefs.map (fun e => (e.1, List.map (rnE d new) e.2)) := by
+  have hr := run_sim S d old new evs init init (rinv_init d old new) (rel_init d new) h
+  exact ⟨hr.useDef, hr.invalid, by simp [defToUse, hr.useDef, hr.defLocs], hr.errors, hr.unbound,
+    hr.scopedDefs⟩
+
+/-- non-vacuity: two sibling bindings with the same name `1`; renaming the first (location 10, use
+11) to `7` is admissible although the name is bound twice. -/
+example : Admissible [10, 11] 10 1 7
+    [Ev.push, .define 1 10, .use 1 11 false, .pop .scoped 3, .push, .define 1 20, .use 1 21 false,
+     .pop .scoped 4] (init : St Nat) := by decide
 
 def swap (a b : α) (n : α) : α := if n = a then b else if n = b then a else n
 
@@ -183,48 +200,43 @@ theorem renameAt_eq_map_swap (S : List Nat) (old new : α) (evs : List (Ev α))
     (hfresh : ∀ ev ∈ evs, ev.name? ≠ some new)
     (hS : ∀ ev ∈ evs, ∀ l, ev.loc = some l → (l ∈ S ↔ ev.name? = some old)) :
     renameAt S new evs = evs.map (Ev.map (swap old new)) := by
-  induction evs with
-  | nil => rfl
-  | cons ev evs ih =>
-    have ih' := ih (fun e he => hfresh e (List.mem_cons_of_mem _ he)) (fun e he => hS e (List.mem_cons_of_mem _ he))
-    have hf := hfresh ev (by simp)
-    have hs := hS ev (by simp)
-    cases ev with
-    | push => simp [renameAt, ih', Ev.map]
-    | pop k l => simp [renameAt, ih', Ev.map]
-    | define n l =>
-      have h1 := hs l rfl
-      simp only [Ev.name?, ne_eq, Option.some.injEq] at hf h1
-      by_cases hl : l ∈ S
-      · have : n = old := h1.mp hl
-        simp [renameAt, hl, this, ih', Ev.map, swap]
-      · have h2 : n ≠ old := fun e => hl (h1.mpr e)
-        simp [renameAt, hl, ih', Ev.map, swap, h2, hf]
-    | use n l ft =>
-      have h1 := hs l rfl
-      simp only [Ev.name?, ne_eq, Option.some.injEq] at hf h1
-      by_cases hl : l ∈ S
-      · have : n = old := h1.mp hl
-        simp [renameAt, hl, this, ih', Ev.map, swap]
-      · have h2 : n ≠ old := fun e => hl (h1.mpr e)
-        simp [renameAt, hl, ih', Ev.map, swap, h2, hf]
+  simp only [renameAt]
+  apply List.map_congr_left
+  intro ev hev
+  have hf := hfresh ev hev
+  have hs := hS ev hev
+  cases ev with
+  | push => rfl
+  | pop k l => rfl
+  | define n l =>
+    have h1 := hs l rfl
+    simp only [Ev.name?, ne_eq, Option.some.injEq] at hf h1
+    by_cases hl : l ∈ S
+    · have : n = old := h1.mp hl
+      simp [renameEv, hl, this, Ev.map, swap]
+    · have h2 : n ≠ old := fun e => hl (h1.mpr e)
+      simp [renameEv, hl, Ev.map, swap, h2, hf]
+  | use n l ft =>
+    have h1 := hs l rfl
+    simp only [Ev.name?, ne_eq, Option.some.injEq] at hf h1
+    by_cases hl : l ∈ S
+    · have : n = old := h1.mp hl
+      simp [renameEv, hl, this, Ev.map, swap]
+    · have h2 : n ≠ old := fun e => hl (h1.mpr e)
+      simp [renameEv, hl, Ev.map, swap, h2, hf]
 
-/-- **`rename_preserves_resolution_partial`**: if the new name is fresh for the module and the
-renamed occurrences are *all* occurrences of the old name (decidable side condition; true whenever
-the name is bound once in the module), the renamed module has the same def/use graph, the same
-invalid definitions, and the same number of diagnostics — no capture, no escape. -/
+/-- **`rename_preserves_resolution_partial`** (kept: it also covers ill-scoped modules and the
+lambda-capture tables, which the general theorem does not): if the new name is fresh and the
+renamed occurrences are *all* occurrences of the old name, everything — including captures and
+diagnostics of rejected modules — is preserved up to the renaming. -/
 theorem rename_preserves_resolution_partial (S : List Nat) (old new : α) (evs : List (Ev α))
     (hfresh : ∀ ev ∈ evs, ev.name? ≠ some new)
     (hS : ∀ ev ∈ evs, ∀ l, ev.loc = some l → (l ∈ S ↔ ev.name? = some old)) :
-    (run (renameAt S new evs) init).useDef = (run evs (init : St α)).useDef ∧
-    (run (renameAt S new evs) init).invalid = (run evs (init : St α)).invalid ∧
-    defToUse (run (renameAt S new evs) init) = defToUse (run evs (init : St α)) ∧
-    (run (renameAt S new evs) init).errors.length = (run evs (init : St α)).errors.length := by
+    run (renameAt S new evs) init = (run evs (init : St α)).map (swap old new) := by
   rw [renameAt_eq_map_swap S old new evs hfresh hS]
   have := run_map (swap old new) (swap_injective old new) evs init
   rw [init_map] at this
-  rw [this]
-  simp [St.map, defToUse]
+  exact this
 
 /-- The validity test of `rewrite::rename` (`lib.rs:481-486`) is purely lexical (starts with a
 lowercase letter, alphanumeric): it does **not** imply freshness.  Witness on the model: renaming
@@ -236,6 +248,11 @@ theorem fresh_check_unsound_counterexample :
 
 example : renameAt [10, 12] 7 [Ev.push, .define 1 10, .define 2 11, .use 1 12 false]
     = [Ev.push, .define 7 10, .define 2 11, .use 7 12 false] := by decide
+/-- struct-shorthand binder `{ f }` (node `pId f`) under an or-pattern: both alternatives renamed -/
+example : visit (Node.renameAt [5, 6, 9] 7 (.mk .seq none 0
+      [.mk .pOr none 0 [.mk .seq none 0 [.mk .pId (some 1) 5 []], .mk .seq none 0 [.mk .pId (some 1) 6 []]],
+       .mk .var (some 1) 9 []]))
+    = [Ev.define 7 5, .use 7 6 false, .use 7 9 false] := by decide
 example : (run [Ev.push, .define 1 10, .use 1 12 false] init).useDef = [(12, 10)] := by decide
 
 end SamVerif.Scope
